@@ -187,11 +187,14 @@ def resolver_used(ck):
         peaks_param = V("peaks")
         full = it in (peaks_param, ("list", (peaks_param,))) or (
             it[0] == "select" and {it[2], it[3]} == {peaks_param, ("list", (peaks_param,))})
-        ck.judge(full and not ifs and len(c0[3]) == 1, "C01.2", "Aligner.align:all-peaks", w,
+        # either [getSegments(p) for p in peaks] (flattened afterwards) or the flattened form
+        # (s for p in peaks for s in getSegments(p)) - chain.from_iterable is read as the latter
+        any_ifs = any(g[1] for g in c0[3])
+        ck.judge(full and not any_ifs and len(c0[3]) in (1, 2), "C01.2", "Aligner.align:all-peaks", w,
                  "segments of every peak take part in conflict resolution",
-                 found=f"iterates {T.show(it)[:80]}" + (f" if {[T.show(i) for i in ifs]}" if ifs else ""),
+                 found=f"iterates {T.show(it)[:80]}" + (f" if {[T.show(i) for g in c0[3] for i in g[1]]}" if any_ifs else ""),
                  required="for p in peaks (all of them)")
-        elt = c0[2]
+        elt = c0[2] if len(c0[3]) == 1 else c0[3][1][0]
         ck.judge(elt[0] == "app" and elt[1].endswith("Aligner.getSegments"), "C01.2", "Aligner.align:per-peak", w,
                  "per-peak segments come from Aligner.getSegments", found=T.show(elt)[:120])
     # factory injects the real resolver chain
@@ -387,57 +390,58 @@ def _pair_generator(ck, gen_fn, n):
 
 
 # ---------------------------------------------------------------------------------------------------------- C01.4
+def _one_per_key_min(ctx, t):
+    """(min(group, key=K2) for _, group in groupby(sorted(X, key=K), K))  ->  dict(key, sort_key, input, nearest, node term)"""
+    while t[0] == "call" and t[1] in ("list", "iter", "tuple") and len(t[2]) == 1 and not t[3]:
+        t = t[2][0]
+    if t[0] != "comp" or len(t[3]) != 1:
+        return None
+    it, ifs = t[3][0]
+    if ifs or not (it[0] == "call" and it[1].endswith("groupby") and len(it[2]) >= 1):
+        return None
+    k = it[2][1] if len(it[2]) > 1 else dict(it[3]).get("key")
+    inp = it[2][0]
+    while inp[0] == "call" and inp[1] in ("list", "iter", "tuple") and len(inp[2]) == 1 and not inp[3]:
+        inp = inp[2][0]
+    sspec = sort_spec(inp)
+    elt = t[2]
+    nearest = elt[0] == "call" and elt[1] == "min" and len(elt[2]) == 1 and key_path(ctx, dict(elt[3]).get("key")) == ("distance",)
+    return {"key": key_path(ctx, k), "sort_key": key_path(ctx, sspec[1]) if sspec else None, "sorted": sspec is not None,
+            "descending": sspec[2] if sspec else None, "input": sspec[0] if sspec else inp, "nearest": nearest, "elt": elt, "gb": it}
+
+
 def dedupe(ck, rule):
     ctx = ck.ctx
     p = ctx.p
     fn = p.find_method("AlignedPair", "deduplicate")
-    rets = [pa for pa in explore(ck, fn) if pa.outcome == "return"]
+    # the one-per-key helper is read through its body (whatever it is called): a generator that is nothing but a loop over
+    # groupby(...) around one `yield` is the comprehension it spells out
+    rets = [pa for pa in explore(ck, fn, inline=3) if pa.outcome == "return"]
     if len(rets) != 1:
         raise AnalysisError(f"{fn.where}: deduplicate expected to have a single return")
     v = rets[0].value
     w = where(fn, rets[0].node)
-    keys = []
-    cur = v
-    helper = None
     param = V(fn.call_params()[0].name)
-    while cur[0] == "app" and len(cur[3]) == 2:
-        vals = [val for _, val in cur[3]]
-        kvals = [x for x in vals if key_path(ctx, x) is not None]
-        others = [x for x in vals if key_path(ctx, x) is None]
-        if len(kvals) != 1 or len(others) != 1:
+    levels = []
+    cur = v
+    while True:
+        spec = _one_per_key_min(ctx, cur)
+        if spec is None:
             break
-        helper = cur[1]
-        keys.append(key_path(ctx, kvals[0]))
-        cur = others[0]
+        levels.append(spec)
+        cur = spec["input"]
+    if not levels:
+        raise AnalysisError(f"{w}: one-per-key selection (min over groupby over sorted) not recognised: {T.show(v)[:200]}")
+    keys = [lv["key"] for lv in levels]
     ck.judge(cur == param and len(keys) == 2 and set(keys) == {("query", "siteId"), ("reference", "siteId")},
              rule, short(fn), w, "de-duplication = one-per-key by query label composed with one-per-key by reference label",
              found=f"keys {keys} over {T.show(cur)[:60]}", required="both ('query','siteId') and ('reference','siteId')")
-    if helper is None:
-        raise AnalysisError(f"{w}: one-per-key helper not found")
-    hf = p.get_function(helper)
-    hp = explore(ck, hf, unroll=(1,))
     n = 0
-    for pa in hp:
-        for e in pa.events:
-            if e.kind == "yield":
-                n += 1
-                t = e.term
-                ok = t[0] == "call" and t[1] == "min" and len(t[2]) == 1 and key_path(ctx, dict(t[3]).get("key")) == ("distance",)
-                ck.judge(ok, rule, short(hf) + ":nearest", where(hf, e.node), "each group keeps the pair with the minimum distance",
-                         found=T.show(t)[:200], required="min(group, key=distance)")
-                grp = t[2][0] if t[0] == "call" and t[2] else None
-                if grp is not None:
-                    gb = None
-                    for x in T.subterms(grp):
-                        if x[0] == "call" and x[1].endswith("groupby"):
-                            gb = x
-                    if gb is None:
-                        raise AnalysisError(f"{where(hf, e.node)}: groups are not produced by itertools.groupby")
-                    s = sort_spec(gb[2][0])
-                    k = gb[2][1] if len(gb[2]) > 1 else dict(gb[3]).get("key")
-                    hp = [V(pp.name) for pp in hf.call_params()]
-                    ck.judge(s is not None and s[1] == k and s[0] in hp and k in hp and s[0] != k, rule, short(hf) + ":grouping",
-                             where(hf, e.node), "all pairs are sorted and grouped by the same key parameter",
-                             found=T.show(gb)[:160])
+    for i, lv in enumerate(levels):
+        n += 1
+        ck.judge(lv["nearest"], rule, f"{short(fn)}:level{i}:nearest", w, "each group keeps the pair with the minimum distance",
+                 found=T.show(lv["elt"])[:200], required="min(group, key=distance)")
+        ck.judge(lv["sorted"] and lv["sort_key"] == lv["key"] and lv["key"] is not None, rule, f"{short(fn)}:level{i}:grouping", w,
+                 "all pairs are sorted and grouped by the same key", found=T.show(lv["gb"])[:160])
     ck.floor(f"{rule} emissions of the one-per-key helper", n, 1)
     # AlignedPair.distance = |queryShift| is judged under C04.4; the engine applies deduplicate to every candidate (C12.3)
